@@ -458,7 +458,7 @@ func (s *scenario) check(x *vsched.Exec) (string, string) {
 }
 
 func (s *scenario) scenario() *sched.Scenario {
-	return &sched.Scenario{Name: s.Name, Setup: s.setup, Threads: s.threads, Check: s.check, MaxSteps: 100000, TrustFirst: true}
+	return &sched.Scenario{Name: s.Name, Setup: s.setup, Threads: s.threads, Check: s.check, MaxSteps: 100000, TrustFirst: true, HorizonViolates: true}
 }
 
 func all(quick bool) []*scenario {
@@ -483,6 +483,9 @@ func signature(what string) string {
 	}
 	if strings.Contains(what, "deadlock") {
 		return "C15:deadlock"
+	}
+	if strings.Contains(what, "does not terminate") || strings.Contains(what, "livelock") {
+		return "C15:non-termination"
 	}
 	if strings.Contains(what, "panic") {
 		return "C15:panic"
